@@ -383,6 +383,11 @@ func Run(t *testing.T, cfg Config, body func()) (res *Result) {
 				}
 				sort.Ints(s.pctChange)
 			}
+			// The bubble always ends with the recoverable "blocked goroutines remain" panic, never by a
+			// normal return: after a normal return synctest.Test fails the enclosing test with FailNow when
+			// the race detector has reported anything during the run, which would end the worker without
+			// its report. (Worlds that leave tasks blocked on application channels end this way anyhow.)
+			go func() { <-s.never }()
 			s.spawn("harness:main", true, func() {
 				body()
 			})
@@ -525,6 +530,10 @@ func taskMain(s *Sim, tk *Task, fn func()) {
 	<-tk.gate
 	raceEnable()
 	defer func() { s.taskExit(tk, recover()) }()
+	// A memory fault at a non-nil address (a store into a read-only mapping, a read past a mapping) is a
+	// fatal error of the whole OS process by default: the worker would die and the run's tape with it.
+	// As a panic of the task it is reported like any other crash of the program, with its replay file.
+	debug.SetPanicOnFault(true)
 	if s.over {
 		if tk.dying {
 			return
